@@ -80,17 +80,11 @@ def isFloatKind (k : Kind) : Bool := k = .float32 || k = .float64
 
 /-- `IsValidIntString(val, kind)` -/
 def isValidIntString (v : GoVal) (k : Kind) : Bool :=
-  if k ≠ .string then false
-  else match parseInt v.stringContent with
-    | .ok _ => true
-    | _ => false
+  if k ≠ .string then false else parseIntOk v.stringContent
 
 /-- `IsValidFloatString(val, kind)` -/
 def isValidFloatString (v : GoVal) (k : Kind) : Bool :=
-  if k ≠ .string then false
-  else match parseFloat v.stringContent with
-    | .ok => true
-    | _ => false
+  if k ≠ .string then false else parseFloatOk v.stringContent
 
 /-- `Definition.IsInputType` -/
 def Definition.isInputType (d : Definition) : Bool :=
@@ -180,12 +174,13 @@ def fieldLoop (f : Path → GType → GoVal → Res (GoVal × GoVal)) (path : Pa
 /-- the built-in scalar table of the `case ast.Scalar` branch: `some true` accepted, `some false`
     rejected, `none` = not a built-in name (custom scalar: accepted) -/
 def builtinScalarAccepts (name : Name) (v : GoVal) (k : Kind) : Option Bool :=
-  if name = str "Int" then some (isIntLikeKind k || isFloatKind k || isValidIntString v k)
-  else if name = str "Float" then some (isFloatKind k || isIntLikeKind k || isValidFloatString v k)
-  else if name = str "String" then some (k = .string)
-  else if name = str "Boolean" then some (k = .bool)
-  else if name = str "ID" then some (isIntLikeKind k || k = .string)
-  else none
+  match builtinOf name with                     -- `switch typ.NamedType`
+  | some .int => some (isIntLikeKind k || isFloatKind k || isValidIntString v k)
+  | some .float => some (isFloatKind k || isIntLikeKind k || isValidFloatString v k)
+  | some .string => some (k = .string)
+  | some .boolean => some (k = .bool)
+  | some .id => some (isIntLikeKind k || k = .string)
+  | none => none
 
 /-- `validateVarType(typ, val)` with `v.path = path`; result `(returned Value, argument after in-place updates)` -/
 def validateVarType (s : Schema) : Nat → Path → GType → GoVal → Res (GoVal × GoVal)
